@@ -16,10 +16,14 @@ MUTANTS = [
     ('inverse ground flags not swapped', [('pulse.Pulse.__init__', "np.array ([self.ground [1], self.ground [0]])", "np.array ([self.ground [0], self.ground [1]])")], ['grounded-pulse']),
     ('ground sign computed but not multiplied in', [('pulse.Pulse.__init__', "            self.sign    = self.sign * self.gnd_sgn\n", "")], ['grounded-pulse']),
     ('ground sign +1', [('pulse.Pulse.__init__', "            self.gnd_sgn [self.ground] = -1\n", "            self.gnd_sgn [self.ground] = 1\n")], ['grounded-pulse']),
+    ('vertical test with a tolerance', [('pulse.Pulse.is_non_vertical_grounded', "        return (   (self.ground [0] or self.ground [1])\n               and (self.segs [0].dirvec [0] or self.segs [0].dirvec [1])\n               )", "        return bool (self.ground.any () and np.hypot (self.segs [0].dirvec [0], self.segs [0].dirvec [1]) > 0.01)")], ['vertical-exact']),
+    ('reduced kernel for every image pair', [('mininec.Mininec.scalar_potential', "            xct = np.logical_not (wd)", "            xct = np.logical_not (wd) if k > 0 else np.zeros_like (wd)")], ['kernel-choice']),
+    ('horizontal weight zeroed for one half only', [('mininec.Mininec.compute_far_field', "                kv2g [pv.inv_ground] = np.array ([0, 0, 2])", "                kv2g [pv.inv_ground] = np.array ([0, 0, 2])\n                kv2g [pv.ground.any (axis = 1), 1, :2] = 0")], ['half-weights']),
 ]
 REFACTORS = [
     ('image_iter with list variable', [(M + 'image_iter', "        if self.media is None:\n            return iter ([1])\n        return iter ([1, -1])", "        if self.media is None:\n            return iter ([1])\n        else:\n            return iter ([1, -1])")]),
     ('Z accumulate reordered', [(M + 'compute_impedance_matrix', "self.Z    += k * (d + u12)", "self.Z    += (u12 + d) * k")]),
     ('direction sign by conditional expression', [('pulse.Pulse.__init__', "        self.dir_sgn = sgn\n        if sgn is None:\n            self.dir_sgn = [1, 1]\n", "        self.dir_sgn = [1, 1] if sgn is None else sgn\n")]),
     ('ground sign product commuted', [('pulse.Pulse.__init__', "            self.sign    = self.sign * self.gnd_sgn\n", "            self.sign    = self.gnd_sgn * self.sign\n")]),
+    ('weights zeroed for both halves by literal index', [('mininec.Mininec.compute_far_field', "                kv2g [pv.inv_ground] = np.array ([0, 0, 2])", "                kv2g [pv.inv_ground] = np.array ([0, 0, 2])\n                kv2g [pv.ground.all (axis = 1), 0, :2] = 0\n                kv2g [pv.ground.all (axis = 1), 1, :2] = 0")]),
 ]
